@@ -569,7 +569,9 @@ func rulesC16(w *World, r *Report) {
 			}
 			c, ok := iff.Cond.(*ssa.Call)
 			if ok && c.Call.StaticCallee() == nil && !c.Call.IsInvoke() {
-				if _, isParam := c.Call.Value.(*ssa.Parameter); isParam {
+				// the extractor parameter, also when it lives in a cell because
+				// function literals capture it (rules_c16walk_fv.go paramBehind)
+				if _, isParam := paramBehind(c.Call.Value); isParam {
 					verdict = b.Succs[0]
 				}
 			}
@@ -613,6 +615,7 @@ func rulesC16(w *World, r *Report) {
 			nR++
 			r.fnSeen(fnName(fn))
 			f := w.flow(fn)
+			members := w.memberIfs(fn)
 			ok := true
 			var facts []string
 			for _, b := range fn.Blocks {
@@ -628,31 +631,18 @@ func rulesC16(w *World, r *Report) {
 					}
 					continue
 				}
-				// a `true` return: dominated by a miss edge of Lookup m[K] and by MapUpdate m[K]
+				// a `true` return: dominated by a miss edge of a membership test of
+				// m[K] (a comma-ok lookup here or in a (value, ok) / bool accessor,
+				// rules_c16member.go) and by MapUpdate m[K]
 				good := false
-				for _, bb := range fn.Blocks {
-					for _, in := range bb.Instrs {
-						lk, isL := in.(*ssa.Lookup)
-						if !isL || !lk.CommaOk {
-							continue
-						}
-						for _, ref := range *lk.Referrers() {
-							ex, isEx := ref.(*ssa.Extract)
-							if !isEx || ex.Index != 1 {
-								continue
-							}
-							for _, r2 := range *ex.Referrers() {
-								iff, isIf := r2.(*ssa.If)
-								if !isIf || !iff.Block().Succs[1].Dominates(b) {
-									continue
-								}
-								for _, b3 := range fn.Blocks {
-									for _, i3 := range b3.Instrs {
-										if mu, isMU := i3.(*ssa.MapUpdate); isMU && b3.Dominates(b) && f.term(mu.Key).Key() == f.term(lk.Index).Key() && (sameCell(mu.Map, lk.X) || f.term(mu.Map).Key() == f.term(lk.X).Key()) {
-											good = true
-										}
-									}
-								}
+				for _, mi := range members {
+					if !mi.iff.Block().Succs[mi.miss].Dominates(b) {
+						continue
+					}
+					for _, b3 := range fn.Blocks {
+						for _, i3 := range b3.Instrs {
+							if mu, isMU := i3.(*ssa.MapUpdate); isMU && b3.Dominates(b) && f.term(mu.Key).Key() == f.term(mi.mt.key).Key() && mi.mt.isMap(f, mu.Map) {
+								good = true
 							}
 						}
 					}
@@ -682,6 +672,12 @@ func rulesC16(w *World, r *Report) {
 							}
 						}
 					}
+					for _, mi := range members {
+						if mi.mt.lk.Parent() != fn && mi.mt.isMap(f, c.Call.Args[0]) {
+							ok = false
+							facts = append(facts, bi.Name()+" on the visited map at "+w.instrPos(c)+": the mark that ends the walk on a recursive type is removed again")
+						}
+					}
 				}
 			}
 			if len(facts) == 0 {
@@ -699,12 +695,10 @@ func rulesC16(w *World, r *Report) {
 	if ev != nil {
 		kinds := map[string]bool{}
 		for _, g := range vw.fns {
-			for _, c := range callsTo(g, ev) {
-				arg := c.Call.Args[0]
-				nc, ok := arg.(*ssa.Call)
-				if !ok || nc.Call.StaticCallee() == nil || qualifiedFnName(nc.Call.StaticCallee()) != "reflect.New" {
-					continue
-				}
+			// calls handing reflect.New(T) to the walk as its value: to the
+			// entry itself, or through members (closures, helpers) that pass
+			// their parameter on unchanged (rules_c16walk_fv.go)
+			for _, c := range vw.zeroDescents(g) {
 				// kinds under which the call is made (inside a helper: the kinds
 				// under which the helper is entered)
 				for _, k := range vw.kindsAt(c.Block()) {
@@ -956,7 +950,7 @@ func (w *World) ruleWalkVisitsAll(r *Report, rule string, vw *valueWalk) {
 				ks := []int{k}
 				for _, c := range vw.walkCallsIn(b) {
 					var next []int
-					for _, iv := range vw.invocations(c.Call.StaticCallee()) {
+					for _, iv := range vw.invocations(w.walkCallee(c)) {
 						for _, a := range ks {
 							if iv < 0 || a < 0 {
 								next = append(next, -1)
@@ -977,9 +971,32 @@ func (w *World) ruleWalkVisitsAll(r *Report, rule string, vw *valueWalk) {
 					}
 				}
 			}
-			for _, s2 := range lp.header.Succs {
-				if lp.body[s2] {
-					dfs(s2, 0, map[*ssa.BasicBlock]bool{})
+			// an iteration starts with the header: in a test-at-the-bottom loop
+			// (`for { walk(v.Index(i)); i++; if i >= v.Len() { break } }`) the
+			// header IS the body and holds the walk call
+			headKs := []int{0}
+			for _, c := range vw.walkCallsIn(lp.header) {
+				var next []int
+				for _, iv := range vw.invocations(w.walkCallee(c)) {
+					for _, a := range headKs {
+						if iv < 0 || a < 0 {
+							next = append(next, -1)
+						} else {
+							next = append(next, a+iv)
+						}
+					}
+				}
+				headKs = uniqInts(next)
+			}
+			for _, k0 := range headKs {
+				if k0 < 0 {
+					counts[-1] = true
+					continue
+				}
+				for _, s2 := range lp.header.Succs {
+					if lp.body[s2] {
+						dfs(s2, k0, map[*ssa.BasicBlock]bool{})
+					}
 				}
 			}
 			var got []int
